@@ -49,7 +49,7 @@ ASSUMPTIONS = ["quantities whose value is a non-array object are compared by typ
                "histories of bounded length over the quantities reachable by introspection; a leak needing a longer sequence is missed",
                "the in-place F+H fast path of curvature_reg_matrix (buffer reused, cache entry dropped) is legitimate: later reads recompute F"]
 QUICK_JOBS = 12
-MIN_MONITORS = {"*": {"input_fingerprint": 200, "cache.hit_unchanged": 200, "order.matches_baseline": 200, "derived.consistent": 100,
+MIN_MONITORS = {"*": {"input_fingerprint": 200, "cache.hit_unchanged": 200, "order.matches_baseline": 200, "derived.consistent": 100, "derived.matches_rebuild": 100,
                       "defaults.unchanged": 3, "deterministic": 10, "deterministic.simulator_seed": 4}}
 SKIP_NAMES = ("plot", "output", "fits", "hdu", "visual", "json", "pickle", "run_time", "profile", "logger", "instance_flatten", "instance_unflatten")
 SKIP_QUANT = {"reconstruction_noise_map_with_covariance", "reconstruction_noise_map", "reconstruction_noise_map_dict", "errors", "errors_with_covariance",
@@ -316,6 +316,35 @@ OPS = {"mul2": lambda x: x * 2.0, "add_self": lambda x: x + x, "neg": lambda x: 
        "abs_sqrt": lambda x: abs(x).sqrt(), "div3": lambda x: x / 3.0, "rsub": lambda x: 1.0 - x, "invert": lambda x: x.invert()}
 
 
+def rebuild(aa, d):
+    """A fresh object of the same class constructed from the derived object's own contents (None if not supported)."""
+    a = np.array(d.array, copy=True)
+    n = type(d).__name__
+    if n == "Array2D":
+        # skip_mask: a native-stored derived array may legitimately hold non-zero values at masked positions in its raw
+        # buffer (its .native / .slim views zero / drop them); the rebuild must start from exactly the same contents
+        return aa.Array2D(values=a, mask=d.mask, header=getattr(d, "header", None), store_native=(a.ndim == 2), skip_mask=True)
+    if n in ("Grid2D", "VectorYX2D") and a.ndim == 3 and np.any(a[np.asarray(d.mask.array if hasattr(d.mask, "array") else d.mask, bool)] != 0):
+        return None        # the constructors of native grids always re-mask: the contents would change
+    if n == "Grid2D":
+        return aa.Grid2D(values=a, mask=d.mask, store_native=(a.ndim == 3), over_sampling=d.over_sampling)
+    if n == "VectorYX2D":
+        return aa.VectorYX2D(values=a, grid=np.array(d.grid.array, copy=True), mask=d.mask, store_native=(a.ndim == 3))
+    if n == "Visibilities":
+        return aa.Visibilities(visibilities=a)
+    if n == "VisibilitiesNoiseMap":
+        return aa.VisibilitiesNoiseMap(visibilities=a)
+    if n == "Kernel2D":
+        return aa.Kernel2D(values=a, mask=d.mask, header=getattr(d, "header", None), store_native=(a.ndim == 2))
+    if n == "Array1D":
+        return aa.Array1D(values=a, mask=d.mask, header=getattr(d, "header", None), store_native=True) if False else aa.Array1D(values=a, mask=d.mask, header=getattr(d, "header", None))
+    if n == "Grid2DIrregular":
+        return aa.Grid2DIrregular(values=a)
+    if n == "Mask2D":
+        return aa.Mask2D(mask=a, pixel_scales=d.pixel_scales, origin=d.origin)
+    return None
+
+
 def run_derive(ctx, u):
     aa = ctx.aa
     seed = u["s"]
@@ -347,6 +376,20 @@ def run_derive(ctx, u):
                 for n in names:
                     v = read(d, n)
                     ctx.check(v == basev[n], "derived.consistent", structure=sn, operation=on, quantity=n, variant=variant, fresh=basev[n][:70], got=v[:70])
+                # a derived object must report quantities consistent with its own contents: compare with a fresh object of
+                # the same class constructed from those contents
+                try:
+                    rb = rebuild(aa, d)
+                except Exception:
+                    rb = None
+                if rb is None or type(rb) is not type(d):
+                    ctx.skipped["rebuild_not_supported:" + type(d).__name__] += 1
+                    continue
+                for n in names:
+                    if n in ("copy()",):
+                        continue
+                    v, w_ = read(d, n), read(rb, n)
+                    ctx.check(v == w_, "derived.matches_rebuild", structure=sn, operation=on, quantity=n, variant=variant, derived=v[:70], rebuilt_from_contents=w_[:70])
             ctx.case(seed, sn, on, nontrivial=True, cls=["derive", "derive:" + on, "class:" + sn], sample=lambda: {"structure": sn, "operation": on, "quantities": len(names)})
     run_derive_datasets(ctx, seed)
 
@@ -527,6 +570,22 @@ def run_sweep(ctx, i):
             if inv2 is not None:
                 do(lambda: inv2.reconstruction)
                 do(lambda: inv2.log_det_curvature_reg_matrix_term)
+    # interferometer inversion that omits `settings` / `preloads`: the module-level defaults are used (and must survive)
+    def interferometer():
+        Func = gen_aa.func_list_class(aa)
+        n_ = int((~m).sum())
+        T_ = aa.TransformerDFT(uv_wavelengths=uv, real_space_mask=mask, preload_transform=bool(i % 2))
+        g_ = aa.Grid2D.from_mask(mask=mask, over_sampling=aa.OverSamplingUniform(sub_size=1))
+        Mf = own("interferometer_matrix", rng.random((n_, 2)) + 0.1)
+        fl = Func(grid=g_, M=Mf, regularization=aa.reg.Zeroth(coefficient=0.5))
+        nm = aa.VisibilitiesNoiseMap(visibilities=np.abs(cvis.real) + 1 + 1j * (np.abs(cvis.imag) + 1))
+        dsi = aa.DatasetInterface(data=aa.Visibilities(visibilities=cvis), noise_map=nm, transformer=T_, grids=aa.GridsInterface(uniform=g_))
+        inv_i = aa.Inversion(dataset=dsi, linear_obj_list=[fl])
+        inv_i.data_vector
+        inv_i.curvature_matrix
+        return inv_i
+    do(interferometer)
+    check_defaults(ctx, "sweep:%d:after interferometer inversion with default settings" % i)
     mappers = [o for o in objs if isinstance(o, aa.AbstractMapper)]
     if mappers:
         mp = mappers[0]
